@@ -433,9 +433,23 @@ func execLocal(c core.Case, remoteMode bool) []string {
 	pv := privval.NewFilePV(priv, keyPath, statePath)
 	pv.Save()
 	t := &sigTable{m: map[string]string{}}
-	reload := func() { pv = privval.LoadFilePV(keyPath, statePath) }
+	// every restart goes through the loader node.DefaultNewNode uses
+	reload := func() { pv = privval.LoadOrGenFilePV(keyPath, statePath) }
 	doSign := func(q req, lost bool) rawResult { return rawSign(pv, q) }
 	memLSS := func() lssRaw { return lssOf(&pv.LastSignState) }
+	reloadVia := func(via string) bool {
+		switch via {
+		case "loadorgen":
+			pv = privval.LoadOrGenFilePV(keyPath, statePath)
+		case "load":
+			pv = privval.LoadFilePV(keyPath, statePath)
+		case "emptystate": // what only the unsafe reset commands use
+			pv = privval.LoadFilePVEmptyState(keyPath, statePath)
+		default:
+			return false
+		}
+		return true
+	}
 	if remoteMode {
 		rm, err := newRemote(keyPath, statePath)
 		if err != nil {
@@ -443,6 +457,15 @@ func execLocal(c core.Case, remoteMode bool) []string {
 		}
 		defer rm.close()
 		reload = rm.restartServer
+		reloadVia = func(via string) bool {
+			if via != "loadorgen" && via != "load" && via != "emptystate" {
+				return false
+			}
+			rm.loader = via
+			rm.restartServer()
+			rm.loader = "loadorgen"
+			return true
+		}
 		doSign = rm.sign
 		memLSS = rm.mem
 	}
@@ -522,6 +545,12 @@ func execLocal(c core.Case, remoteMode bool) []string {
 		case op == "crash":
 			reload()
 			out = append(out, "ok")
+		case f[0] == "crash" && len(f) == 2 && strings.HasPrefix(f[1], "via="):
+			if reloadVia(strings.TrimPrefix(f[1], "via=")) {
+				out = append(out, "ok")
+			} else {
+				out = append(out, "bad-op")
+			}
 		case op == "state":
 			d, err := readDisk(statePath)
 			if err != nil {
@@ -546,7 +575,15 @@ func execLocal(c core.Case, remoteMode bool) []string {
 //	state                  ->  S <h> <r> <s> <sbhex|-|nil> <sighex|-|nil>
 func childMain(dir string) {
 	keyPath, statePath := filepath.Join(dir, "key.json"), filepath.Join(dir, "state.json")
-	pv := privval.LoadFilePV(keyPath, statePath)
+	var pv *privval.FilePV
+	switch os.Getenv("TMH_C04_LOADER") {
+	case "load":
+		pv = privval.LoadFilePV(keyPath, statePath)
+	case "emptystate":
+		pv = privval.LoadFilePVEmptyState(keyPath, statePath)
+	default: // what node.DefaultNewNode uses
+		pv = privval.LoadOrGenFilePV(keyPath, statePath)
+	}
 	in := bufio.NewReaderSize(os.Stdin, 1<<16)
 	for {
 		line, err := in.ReadString('\n')
@@ -610,7 +647,7 @@ type child struct {
 
 var selfExe, _ = os.Executable()
 
-func spawn(dir string, inject []string) (*child, error) {
+func spawn(dir string, inject []string, loader ...string) (*child, error) {
 	var cmd *exec.Cmd
 	if len(inject) > 0 {
 		args := []string{"-f", "-qq", "-o", "/dev/null", "-e", "trace=openat,write,renameat,unlinkat"}
@@ -623,6 +660,9 @@ func spawn(dir string, inject []string) (*child, error) {
 		cmd = exec.Command(selfExe)
 	}
 	cmd.Env = append(os.Environ(), "TMH_C04_CHILD="+dir)
+	if len(loader) > 0 {
+		cmd.Env = append(cmd.Env, "TMH_C04_LOADER="+loader[0])
+	}
 	in, err := cmd.StdinPipe()
 	if err != nil {
 		return nil, err
@@ -896,6 +936,18 @@ func execKill(c core.Case) []string {
 			ch.kill()
 			ch = nil
 			out = append(out, "ok")
+		case f[0] == "crash" && len(f) == 2 && strings.HasPrefix(f[1], "via="):
+			via := strings.TrimPrefix(f[1], "via=")
+			if via != "loadorgen" && via != "load" && via != "emptystate" {
+				out = append(out, "bad-op")
+				continue
+			}
+			ch.kill()
+			var err error
+			if ch, err = spawn(dir, nil, via); err != nil {
+				panic(err)
+			}
+			out = append(out, "ok")
 		case op == "state":
 			d, err := readDisk(statePath)
 			if err != nil {
@@ -976,6 +1028,10 @@ func oracle(c core.Case, out []string) []core.Finding {
 		}
 		f := strings.Fields(op)
 		if len(f) == 0 {
+			continue
+		}
+		if f[0] == "crash" && len(f) == 2 && f[1] == "via=emptystate" {
+			journal = nil // the unsafe reset loader: the operator gave up the protection
 			continue
 		}
 		if f[0] == "load" {
@@ -1113,6 +1169,21 @@ func signOp(r *rand.Rand, x hrs, bid string, ts int64, chain string) string {
 	return fmt.Sprintf("sign kind=%s typ=%d h=%d r=%d pol=%d bid=%s ts=%d chain=%s", kind, typ, x.h, x.r, pol, bid, ts, chain)
 }
 
+// a restart: through the node's loader (plain `crash`), a named production loader, rarely the
+// reset commands' loader
+func restartOp(r *rand.Rand) string {
+	switch r.Intn(10) {
+	case 0, 1, 2:
+		return "crash via=loadorgen"
+	case 3, 4:
+		return "crash via=load"
+	case 5:
+		return "crash via=emptystate"
+	default:
+		return "crash"
+	}
+}
+
 func withCrash(r *rand.Rand, op string) string {
 	return op + fmt.Sprintf(" crash=%d", r.Intn(7))
 }
@@ -1177,7 +1248,7 @@ func genWalk(r *rand.Rand, kind string, n int, crashP int, emit func(core.Case))
 				ops = append(ops, "state")
 			}
 			if r.Intn(12) == 0 {
-				ops = append(ops, "crash")
+				ops = append(ops, restartOp(r))
 			}
 			x = next(r, x)
 		}
@@ -1257,7 +1328,7 @@ func genPersistFail(r *rand.Rand, kind string, n int, emit func(core.Case)) {
 				ops = append(ops, op)
 			}
 			if r.Intn(3) != 0 {
-				ops = append(ops, "crash")
+				ops = append(ops, restartOp(r))
 			}
 			other := genBid(r)
 			ops = append(ops, signOp(r, x, other, ts+1, "c"))
@@ -1364,7 +1435,7 @@ func genMalformed(r *rand.Rand, n int, emit func(core.Case)) {
 		"load h=1 r=0 s=2 sb=nil",
 		"load h=1 r=0 s=2 sb=1/1/0 sig=nil",
 		"load h=1 r=0 s=2 sb=nil sig=nil",
-		"state now", "crash 1", "frobnicate", "load",
+		"state now", "crash 1", "crash via=gen", "crash via=", "crash via=load x", "frobnicate", "load",
 		"node", "node height=0 kills=- trunc=-", "node height=2 kills=foo:1 trunc=-", "node height=2 kills=write trunc=-", "node height=2 kills=write:1 trunc=x",
 	}
 	for c := 0; c < n; c++ {
@@ -1442,7 +1513,7 @@ func genRemote(r *rand.Rand, n int, emit func(core.Case)) {
 				ops = append(ops, op)
 			}
 			if r.Intn(6) == 0 {
-				ops = append(ops, "crash")
+				ops = append(ops, restartOp(r))
 			}
 			if r.Intn(4) == 0 {
 				ops = append(ops, "state")
